@@ -1,22 +1,18 @@
 CONSTANTS
-  Catalog <- CatalogRows
+  Groups <- GroupsRows
+  CatalogOf <- CatalogRows
   Prios <- PriosRows
-  FrameSeq <- FrameSeqRows
+  FramesOf <- FramesRows
+  AltOf <- AltRows
   N = 1
   Alternate = TRUE
   D = 2
 INIT Init
 NEXT Next
-VIEW view
+VIEW viewE
 INVARIANT TypeOK
-INVARIANT Answered
-INVARIANT MissOnlyIfNone
-INVARIANT MissIfNone
-INVARIANT HitMatches
-INVARIANT HighestPriority
-INVARIANT ExactFirst
-INVARIANT Deterministic
+INVARIANT LookupOK
 INVARIANT Monotone
 INVARIANT IgnoredIrrelevant
-INVARIANT TupleOnly
+INVARIANT EquivalentSame
 CHECK_DEADLOCK FALSE
